@@ -181,11 +181,15 @@ def gen_depwalk(r):
     from .exgen import dag_parents
     n = r.choice([3, 3, 4, 4, 5, 6])
     shape = r.choice(["fanin", "fanin", "diamond", "random", "random", "multiroot"])
-    par = dag_parents(r, n, shape)
+    if r.random() < 0.12:
+        # many parents per operator (a sink behind 11-40 roots, or a dense DAG): every one of them counts
+        n = r.choice([12, 13, 18, 34, 41])
+        shape = r.choice(["fanin", "fanin", "dense"])
+    par = dag_parents(r, n, shape) if shape != "dense" else [[j for j in range(i) if r.random() < 0.9] for i in range(n)]
     reqs = []
     vec = ["pending"] * n
     p_start = r.choice([0.2, 0.4, 0.6])
-    for _ in range(r.randint(30, 160)):
+    for _ in range(r.randint(30, 160) if n < 10 else r.randint(8 * n, 16 * n)):
         waiting = [o for o in range(n) if vec[o] == "assigned"]
         if waiting and r.random() < p_start:
             op = r.choice(waiting)
